@@ -194,6 +194,8 @@ impl<'a, 'b> ElemGen<'a, 'b> {
             let wh = match rng.below(6) {
                 0 => " where String: Clone",
                 1 => " where for<'x> &'x str: Into<String>",
+                // (a clause without predicates is still a clause: the receiver is handed `Some`)
+                2 => " where",
                 _ => "",
             };
             let params = if rng.chance(1, 6) { "<>" } else { "" };
@@ -210,7 +212,11 @@ impl<'a, 'b> ElemGen<'a, 'b> {
         if rng.chance(1, 3) {
             ps.push("const N: usize".into());
         }
-        let wh = if rng.chance(1, 3) { " where T: Default, Vec<T>: Clone".to_string() } else { String::new() };
+        let wh = match rng.below(7) {
+            0 | 1 => " where T: Default, Vec<T>: Clone".to_string(),
+            2 => " where".to_string(),
+            _ => String::new(),
+        };
         (format!("<{}>", ps.join(", ")), wh)
     }
 
